@@ -27,6 +27,7 @@ type vfStream struct {
 	msgs   int
 	broken chan struct{}
 	isBroken bool
+	sawBoth     bool // some request named one service in both lists
 	sendFailsAt int
 	stallAt     int // index of the Send that is slow: it blocks until `resume` is closed
 	resume      chan struct{}
@@ -49,6 +50,13 @@ func (s *vfStream) Send(sub, unsub []string) error {
 		<-s.resume // a slow Send: the caller keeps changing dependencies meanwhile
 	}
 	s.msgs++
+	for _, a := range sub {
+		for _, b := range unsub {
+			if a == b {
+				s.sawBoth = true
+			}
+		}
+	}
 	for _, n := range sub {
 		s.set[n] = true
 	}
@@ -78,6 +86,8 @@ func VfC16_Subscriptions() {
 	}
 	stall := nd.Bool("a-send-is-slow")
 	firstFails := nd.Bool("first-create-fails")
+	slowConnect := !firstFails && !stall && nd.Bool("connect-is-slow") // the first stream is established only after the caller's changes
+	connectGo := make(chan struct{})
 	attempts := 0
 	c := &svcDiscoveryClient{
 		scope:      "vf",
@@ -89,6 +99,9 @@ func VfC16_Subscriptions() {
 		attempts++
 		if attempts == 1 && firstFails {
 			return nil, vfErrStream
+		}
+		if attempts == 1 && slowConnect {
+			<-connectGo
 		}
 		if len(streams) >= maxGen {
 			<-ctx.done // no further generation within the bound: park until the end
@@ -136,6 +149,11 @@ func VfC16_Subscriptions() {
 	}()
 	nd.PanicLabel("discovery")
 	nd.Quiesce()
+	if slowConnect {
+		close(connectGo)
+		nd.Quiesce()
+		nd.Cover("connected-late")
+	}
 	if stall {
 		// the slow Send completes now; everything queued meanwhile must still reach the stream
 		for _, s := range streams {
@@ -169,7 +187,7 @@ func VfC16_Subscriptions() {
 					mixed = true
 				}
 			}
-			nd.Class("subscribe-unsubscribe-reordered", !same && mixed)
+			nd.Class("subscribe-unsubscribe-reordered", !same && mixed && live.sawBoth)
 			nd.Assert(same, "the services subscribed on the live stream are exactly the current dependency set")
 		}
 	}
